@@ -95,7 +95,7 @@ func VerifIntrospect() {
 	dirArgs := verifChoice("dirargs", 2)
 	descr := []string{"", "about f"}[verifChoice("descr", 2)]
 	withMutation := verifChoice("mutation", 2) == 1
-	malformed := verifChoice("malformed", 4) // 0 none, 1 NON_NULL without ofType, 2 possible type without name, 3 unknown possible type
+	malformed := verifChoice("malformed", 5) // 0 none, 1 NON_NULL without ofType, 2 possible type without name, 3 unknown possible type, 4 NON_NULL without ofType on a directive argument
 	verifLog("type " + v15TypeString(shape, "Int") + " arg " + v15TypeString(argShape, "Int"))
 
 	// the argument a of O.f and its default, in the shape the GraphQL specification prescribes:
@@ -189,6 +189,11 @@ func VerifIntrospect() {
 		dargs = []interface{}{v15InputValue("n", "", "Int", "1")}
 	} else {
 		dargs = []interface{}{}
+	}
+	if malformed == 4 {
+		badArg := v15InputValue("broken", "", "Int", nil)
+		badArg["type"] = map[string]interface{}{"kind": "NON_NULL", "name": nil, "ofType": nil}
+		dargs = append(dargs, badArg)
 	}
 	schema := map[string]interface{}{
 		"queryType": map[string]interface{}{"name": "Query"}, "mutationType": nil, "subscriptionType": nil,
